@@ -213,7 +213,7 @@ def counted_faults(obs, x):
     the discounts the statement allows.  Returns (counted, all_raised)."""
     d = obs.world.director
     cfg = obs.config
-    mine = [r for r in d.raised if r['key'].startswith(x.label + '/')]
+    mine = [r for r in d.raised if r['key'].startswith(x.label + '/') and r['kind'] != 'stall']  # (a stall is slowness, not a fault)
     per_range = {}
     for r in mine:
         if is_retryable_download_fault(r):
